@@ -1,4 +1,6 @@
+mod catchup;
 mod common;
+mod fd;
 mod kv;
 mod listen;
 mod mtu;
